@@ -46,6 +46,9 @@ ASSUMPTIONS = [
     "whose first characters occur in 'RSA1024:' / 'ED25519-V3:' can be supplied; create() of an authenticated v2 service cannot complete there "
     "and is not judged) and auth-service-id-not-derived-from-key (the ServiceID returned for a BasicAuth service is not the hash of its key; "
     "HS_DESC events name the key-derived id); the per-ADD_ONION / DEL_ONION oracle is unchanged in both",
+    "key kind prefixed-other-type: a type-prefixed caller key whose type is not the one the requested version implies (ED25519-V3:<blob> "
+    "with version 2 or with the version omitted - create() defaults to 2 -, RSA1024:<blob> with version 3): either the ADD_ONION carries the "
+    "key exactly as given (the prefix states the type) or create() fails before anything but SETEVENTS is written; a re-prefixed key is neither",
     "cells with ports_as_tuple pass the mappings as a tuple instead of a list (the API takes any sequence); a tuple of two ints is two "
     "int-form mappings, as for a list",
     "cells with remove_plan: Tor answers DEL_ONION with 552 / 551 (scripted, the service stays in the reference Tor) and the caller calls "
@@ -174,6 +177,13 @@ def all_cells():
         yield {"route": "auth", "version": 2, "key": key, "detach": detach, "single_hop": False,
                "auth": a, "clients": auth_clients(a), "ports_id": pl, "ports": PORT_LISTS[pl], "await_all": aw,
                "server_variant": "auth-service-id-not-derived-from-key"}
+    # a type-prefixed caller key whose type disagrees with the requested / omitted version (create() defaults to 2)
+    for route, (version, omitted), detach, pl in itertools.product(
+            ROUTES, ((2, False), (2, True), (3, False)), (False, True), SMALL_PORTS):
+        a = "b1n" if route == "auth" else None
+        yield {"route": route, "version": version, "key": "prefixed-other-type", "detach": detach, "single_hop": False,
+               "auth": a, "clients": auth_clients(a) if a else None, "ports_id": pl, "ports": PORT_LISTS[pl],
+               "await_all": False, "version_omitted": omitted}
     # the port mappings given as a TUPLE (of every length, in particular exactly two entries)
     for route, version, pl in itertools.product(ROUTES, (2, 3), sorted(TUPLE_PORT_LISTS)):
         a = "b1n" if route == "auth" else None
@@ -252,6 +262,11 @@ def key_material(cell):
     if kind == "discard":
         from txtorcon.onion import DISCARD
         return DISCARD, ({"NEW:BEST", "NEW:RSA1024"} if version == 2 else {"NEW:ED25519-V3"}), None
+    if kind == "prefixed-other-type":
+        # a type-prefixed key whose type is NOT the one the requested (or defaulted) version implies
+        other = OT.KEYS.ed(idx) if version == 2 else OT.KEYS.rsa(idx)
+        given = ("ED25519-V3:" if version == 2 else "RSA1024:") + other.blob
+        return given, {given}, other
     if kind in ADV_KEY_KINDS:
         b = cell.get("adv_blob") or adversarial_blob(version, int(cell.get("adv", 0)))
         return (b if kind == "bare-adv" else prefix + b), {prefix + b}, _Blob(b)
@@ -314,6 +329,8 @@ def variant_class(cell):
     out = []
     if cell.get("server_variant"):
         out.append("server-variant-" + cell["server_variant"])
+    if cell.get("version_omitted"):
+        out.append("version-omitted")
     if cell.get("ports_as_tuple"):
         out.append("ports-given-as-tuple-of-%d" % len(cell["ports"]))
     if cell.get("tor_best"):
@@ -482,7 +499,7 @@ def run_cell(cell, rec, probe=False, ctx=None, objs=None, extra_class=None, inje
         key_arg, want_specs, supplied = key_material(cell)
         if objs is not None and "key" in objs and want_specs is not None and cell["key"] in ("bare", "prefixed"):
             key_arg = objs["key"]
-        kw = dict(private_key=key_arg, version=version, detach=cell["detach"],
+        kw = dict(private_key=key_arg, version=(None if cell.get("version_omitted") else version), detach=cell["detach"],
                   single_hop=cell["single_hop"], await_all_uploads=cell["await_all"])
         progress = []
         if cell["await_all"]:
@@ -569,6 +586,15 @@ def run_cell(cell, rec, probe=False, ctx=None, objs=None, extra_class=None, inje
                     rec.count("request_objects_mutated")
                     rec.seen("request_object_mutations", "auth-basic-tokens/" + input_class(cell))
 
+        # ---- key of another type than the version implies: sent exactly as given, or refused before sending -------
+        if cell["key"] == "prefixed-other-type" and not add_lines and o.fired == 1 and o.ok is False:
+            rec.count("mismatched_key_type_refused_before_sending")
+            foreign = [l for l in mine() if not l.startswith("SETEVENTS ")]
+            if foreign:
+                V("unexpected-line-after-local-refusal", {"lines": foreign})
+            request_objects_check()
+            rec.case(cell, nontrivial=True)
+            return bad
         # ---- CR/LF key material: error, nothing written but (un)subscriptions -----------------
         if want_specs is None:
             rec.count("crlf_cells_checked")
@@ -668,7 +694,7 @@ def run_cell(cell, rec, probe=False, ctx=None, objs=None, extra_class=None, inje
             V("harness-add-onion-not-handled", {"lines": mine()})
             return bad
         ent = tor.add_onion_log[-1]
-        expect_refusal = (route == "auth" and (version == 3 or not cell["clients"])) or \
+        expect_refusal = (route == "auth" and (version == 3 or not cell["clients"] or parsed.version() == 3)) or \
             bool(cell["single_hop"]) != bool(tor.non_anonymous_mode)
         if ent["code"] != 250:
             if not expect_refusal:
@@ -926,6 +952,10 @@ def random_cell(rnd):
         if version == 3:
             import base64
             cell["adv_blob"] = base64.b64encode(base64.b64decode(cell["adv_blob"][:86] + "==")).decode("ascii")
+    if key in ("bare", "prefixed") and rnd.random() < 0.15:
+        cell["key"] = "prefixed-other-type"
+        if version == 2 and rnd.random() < 0.5:
+            cell["version_omitted"] = True
     if rnd.random() < 0.25:
         cell["ports_as_tuple"] = True
     if rnd.random() < 0.15:
